@@ -117,6 +117,7 @@ class Session:
         self.nops = 0
         self.log = []
         self.removed = []   # (object) taken out of the model and not re-added since
+        self.dead = set()   # ids of placeholders for unreachable temporaries
         self.emit("reset", "ok ")
 
     # ---- bookkeeping
@@ -232,7 +233,7 @@ class Session:
         ctx, rng = self.ctx, self.rng
         flagpool = sorted({int(o.p.flags) for o in self.objs if o.p.flags} | {int(Flags.FUEL), int(Flags.CLAD)})
         for _ in range(k):
-            n = rng.choice(self.objs)
+            n = rng.choice([o for o in self.objs if id(o) not in self.dead])
             kind = rng.choice(["deep", "gen", "gen", "flags", "flags", "type", "pred", "comps", "anc", "anc", "bad"])
             ids = lambda l: "[" + ",".join(str(self.ids.get(id(x), "?")) for x in l) + "]"
             # predicate
@@ -483,19 +484,20 @@ def run_sequence(ctx, shape, seq_seed, batch, nops, nq):
             except _Broken:
                 return ses
         ops = ["add", "add", "add", "insert", "remove", "remove", "removeAll", "setChildren", "sort", "copy", "copychild",
-               "group", "group", "moveto", "moveto"]
+               "group", "group", "moveto", "moveto", "replace"]
     elif shape == "assembly":
         with common.quiet():
             a = copy.deepcopy(fixture().core[0])
         ses.mirror(a)
         ops = ["add", "add", "insert", "insert", "remove", "removeAll", "setChildren", "sort", "reest", "copy", "copychild",
-               "blockremove", "moveto"]
+               "blockremove", "moveto", "replace", "replace"]
     else:
         r = fresh_reactor()
         ses.mirror(r)
         core = r.core
         # (no component removal here: Core.add needs geometrically complete blocks)
-        ops = ["coreadd", "coreadd", "coreremove", "copychild", "add", "insert", "remove", "sort", "copy", "reest", "moveto"]
+        ops = ["coreadd", "coreadd", "coreremove", "copychild", "add", "insert", "remove", "sort", "copy", "reest", "moveto",
+               "replace"]
     ses.check_inv("initial")
     ses.queries(nq)
     for _ in range(nops):
@@ -545,6 +547,47 @@ def prelude_mixed(ses, b):
         ok = _call(lambda: b.insert(0, g1)); ses.after(f"insert {ses.idx(b)} 0 {ses.idx(g1)}", ok, "insert")
         ok = _call(lambda: b.add(g2)); ses.after(f"add {ses.idx(b)} {ses.idx(g2)}", ok, "add")
     ses.ctx.count("directed mixed-depth block built")
+
+
+def do_replace(ses):
+    """b.replaceBlockWithBlock(r): r a free-standing template (parent None) or an attached block; the same template is
+    used again for a second block right away (and inspected afterwards)"""
+    from armi.reactor import composites
+
+    rng = ses.rng
+    blocks_ = [o for o in ses.objs if kind_of(o) == K_BLOCK and id(o) not in ses.dead]
+    if len(blocks_) < 2 or len(ses.objs) > 150:
+        raise _Skip()
+    templates = [o for o in blocks_ if o.parent is None]
+    r = rng.choice(templates) if templates and rng.random() < 0.7 else rng.choice(blocks_)
+    targets = [o for o in blocks_ if o is not r and not any(x is r for x in ses.ancestors_or_self(o))]
+    if not targets:
+        raise _Skip()
+    for b in rng.sample(targets, min(len(targets), 2 if rng.random() < 0.6 else 1)):
+        rkids = [id(c) for c in r]
+        old = list(b)
+        ok = _call(lambda: b.replaceBlockWithBlock(r), multi=True)
+        # the temporary deep copy is unreachable: a placeholder takes its id
+        dead = composites.Composite("forgotten-temp-block")
+        ses.register(dead)
+        ses.dead.add(id(dead))
+        for o in naive_deep(b):
+            if ses.idx(o) is None:
+                ses.register(o)
+        ses.removed += [k for k in old if not any(k is x for x in b)]
+        ctx = ses.ctx
+        case = ses.case() | {"replaced": ses.idx(b), "replacement": ses.idx(r), "template_detached": r.parent is None}
+        if [id(c) for c in r] != rkids or any(c.parent is not r for c in r):
+            ctx.fail("replace-takes-components-from-replacement", "the replacement block still owns its own components "
+                     "(the replaced block receives copies)", case)
+        if {id(c) for c in b} & set(rkids):
+            ctx.fail("replace-shares-components", "no component object is listed by two blocks", case)
+        for root in [o for o in ses.objs if o.parent is None and id(o) not in ses.dead]:
+            comps = root.getComponents()
+            if len({id(c) for c in comps}) != len(comps):
+                ctx.fail("replace-duplicate-components", "getComponents() lists each component once", case | {"root": ses.idx(root)})
+        ses.after(f"replace {ses.idx(b)} {ses.idx(r)}", ok, "replaceBlockWithBlock")
+        ses.queries(2)
 
 
 class _Skip(Exception):
@@ -683,6 +726,8 @@ def _one_op(ses, op, shape, core):
         loc = h.spatialGrid[(0, 0, rng.randint(0, 3)) if K(h) == K_ASSEMBLY else (rng.randint(-1, 1), rng.randint(-1, 1), 0)]
         ok = _call(lambda: c.moveTo(loc))
         ses.after(f"moveto {ses.idx(c)} {ses.idx(h)}", ok, "moveTo")
+    elif op == "replace":
+        do_replace(ses)
     elif op == "reest":
         p = rng.choice(parents)
         ok = _call(lambda: p.reestablishBlockOrder())
